@@ -251,3 +251,66 @@ def emit_options(entries, known_silent, known_optout, pairs=()):
                % len(plines))
     out.append('end Generated\n')
     return '\n'.join(out)
+
+
+def emit_sites(T, derived, entries, known_site_pairs=()):
+    """derived: extract_sites.derive_sites(); entries: extract_sites.probe_sites();
+    known_site_pairs: [(site id, name)] of known_findings.json"""
+    sites = derived['sites']
+    by_name = {}
+    for e in entries:
+        by_name.setdefault(e['name'], []).append(e)
+    names = sorted(by_name, key=lambda n: (code_of(n), n))
+    classes, vectors, rows = {}, {}, []
+    for n in names:
+        ct = _class_text(name_class(T, n))
+        if ct not in classes:
+            classes[ct] = 'scls_%d' % len(classes)
+        es = sorted(by_name[n], key=lambda e: (e['site'], extract_vocab.POSITIONS.index(e['base'])))
+        vec = '[' + ', '.join('(%d, .%s, .%s)' % (e['site'], e['base'], e['disp']) for e in es) + ']'
+        if vec not in vectors:
+            vectors[vec] = 'sv_%d' % len(vectors)
+        rows.append('  ⟨%d, %s, %s⟩' % (code_of(n), classes[ct], vectors[vec]))
+    out = [HEADER % ('extract_sites.py',
+                     'The parts of the stage specifications that reach a dispatch helper (derived '
+                     'from the syntax tree of mongomock/aggregate.py and a traced run of every '
+                     'stage), and the OBSERVED disposition of the probed names at each of them.')]
+    out.append('import MongoModel.Vocab\n')
+    out.append('namespace Generated\nopen MongoModel.Vocab\n')
+    out.append('/-- every call of a dispatch helper in a module-level function of aggregate.py; the '
+               'helpers: %s -/' % comment_safe(', '.join(
+                   '%s (%s)' % (attr, fam) for _, attr, fam in derived['helpers'])))
+    out.append('def callSites : List CallSite := [\n%s]\n' % ',\n'.join(
+        '  ⟨%s, %s, %d⟩' % (lstr(s['function']), lstr(s['helper']), s['line'])
+        for s in derived['static']))
+    out.append('/-- ⟨`<stage>/<key path in the probed specification>:<family>`, index of the call '
+               'site⟩ -/')
+    out.append('def sites : List Site := [\n%s]\n' % ',\n'.join(
+        '  ⟨%s, %d⟩' % (lstr(s['id']), s['call']) for s in sites))
+    out.append('/-! distinct classifications -/')
+    for ct, nm in classes.items():
+        out.append('def %s : NameClass :=\n  %s' % (nm, ct))
+    out.append('\n/-! distinct vectors of observations: (site, position of the dispatcher, observed) -/')
+    for vec, nm in vectors.items():
+        out.append('def %s : List (Nat × Position × Disposition) :=\n  %s' % (nm, vec))
+    out.append('')
+    nchunks = 0
+    for i in range(0, len(rows), CHUNK):
+        out.append('/-- %s -/' % comment_safe(' '.join(names[i:i + CHUNK])))
+        out.append('def siteRows_%d : List SiteRow := [\n%s]' % (
+            nchunks, ',\n'.join(rows[i:i + CHUNK])))
+        nchunks += 1
+    out.append('\ndef siteRowChunks : List (List SiteRow) := [%s]' % ', '.join(
+        'siteRows_%d' % i for i in range(nchunks)))
+    out.append('\n/-- all site rows (%d names) -/\ndef siteRows : List SiteRow := '
+               'siteRowChunks.flatten' % len(rows))
+    out.append('\n/-- one entry per (site, position of the dispatcher, name), %d entries -/'
+               % len(entries))
+    out.append('def siteVocab : List SiteEntry := siteEntriesOf siteRows')
+    idx = {s['id']: s['index'] for s in sites}
+    out.append('\n/-- known findings (known_findings.json): (site, name) pairs accepted silently: '
+               '%s -/' % comment_safe(', '.join('%s %s' % p for p in known_site_pairs)))
+    out.append('def knownIgnoredSitePairs : List (Nat × Code) := [%s]' % ', '.join(
+        '(%d, %d)' % (idx[s], code_of(n)) for s, n in known_site_pairs if s in idx))
+    out.append('\nend Generated\n')
+    return '\n'.join(out)
